@@ -81,7 +81,7 @@ theorem itNext_spec (cfg : Cfg) (e : EL) (hid : e.IdsOk) (hg : ∀ r ∈ e.range
     unfold itNext
     rw [hgi]
     have hcond : ((i : Int) > (e.rs.length : Int) - 1) := by omega
-    simp only [itAdvance, hcond, ↓reduceIte]
+    simp only [itAdvance, hcond, ↓reduceIte, Bool.not_false]
     congr 2
     unfold EL.setIt
     rw [hc]
@@ -95,14 +95,21 @@ theorem itNext_spec (cfg : Cfg) (e : EL) (hid : e.IdsOk) (hg : ∀ r ∈ e.range
     have hcond : ¬ ((i : Int) > (e.rs.length : Int) - 1) := by omega
     have hd : ((k : Int) - 1 + 1) = (k : Int) := by omega
     have hderef := deref_hrAt e hid i o hr
+    have hoid : e.hrAt (i : Int) = some o.id := by rw [hrAt_nat, hr]; rfl
+    have hderef' : e.deref (some o.id) = .ok o := by rw [← hoid]; exact hderef
     by_cases hklt : k < o.r.hosts.length
     · right
       have hadv : ¬ ((k : Int)).toNat > subU64 o.r.hi o.r.lo := by
         simp only [Int.toNat_natCast]; omega
+      have hA : itAdvance cfg e ⟨(i : Int), (k : Int) - 1, e.hrAt (i : Int)⟩
+          = .ok (true, ⟨(i : Int), (k : Int), e.hrAt (i : Int)⟩) := by
+        rcases Bool.eq_false_or_eq_true cfg.fixEndPush with hfx | hfx
+        · simp only [itAdvance, hcond, ↓reduceIte, hfx, hoid, hderef', hd, hadv]
+        · simp only [itAdvance, hcond, ↓reduceIte, hfx, hderef, hd, hadv, Bool.false_eq_true]
       refine ⟨o.r.hosts[k], _, i, k + 1, o.r, remaining_cons hrr hklt, ?_, rfl, hrr, by omega, by omega, by simp⟩
       unfold itNext
       rw [hgi]
-      simp only [itAdvance, hcond, ↓reduceIte, hderef, hd, hadv]
+      simp only [hA, Bool.not_true, Bool.false_eq_true, ↓reduceIte, hderef]
       have hname := HRange.nextName hgr (hn o.r hmem) hklt
       simp only [Int.toNat_natCast]
       rw [hname]
@@ -121,34 +128,56 @@ theorem itNext_spec (cfg : Cfg) (e : EL) (hid : e.IdsOk) (hg : ∀ r ∈ e.range
         left
         have hrr2 : e.ranges[i + 1]? = none := by rw [ranges_getElem?, hr2]; rfl
         have hlen2 : e.rs.length ≤ i + 1 := by simpa using hr2
-        refine ⟨by rw [remaining_next hrr (by omega)]; exact remaining_none hrr2,
-          ⟨i + 1, 1, remaining_none hrr2, ?_⟩⟩
-        unfold itNext
-        rw [hgi]
-        simp only [itAdvance, hcond, ↓reduceIte, hderef, hd, hadv]
+        have hrem0 : remaining e.ranges i k = [] := by
+          rw [remaining_next hrr (by omega)]; exact remaining_none hrr2
         have hc2 : ((i : Int) + 1 > (e.rs.length : Int) - 1) := by omega
-        simp only [hc2, ↓reduceIte]
-        congr 2
-        unfold EL.setIt
-        rw [hc]
-        simp only [List.map_cons, List.map_nil, beq_self_eq_true, ↓reduceIte]
-        rw [hi1]
-        congr 4
+        have hlast : (i : Int) = (e.rs.length : Int) - 1 := by omega
+        rcases Bool.eq_false_or_eq_true cfg.fixEndPush with hfx | hfx
+        · -- repaired: the iterator stays where it is
+          refine ⟨hrem0, ⟨i, k, hrem0, ?_⟩⟩
+          have hB : itAdvance cfg e ⟨(i : Int), (k : Int) - 1, e.hrAt (i : Int)⟩
+              = .ok (false, ⟨(i : Int), (k : Int) - 1, e.hrAt (i : Int)⟩) := by
+            simp only [itAdvance, hcond, ↓reduceIte, hfx, hoid, hderef', hd, hadv]
+            rw [if_pos hlast]
+          unfold itNext
+          rw [hgi]
+          simp only [hB, Bool.not_false, ↓reduceIte]
+          congr 2
+          unfold EL.setIt
+          rw [hc]
+          simp only [List.map_cons, List.map_nil, beq_self_eq_true, ↓reduceIte]
+        · refine ⟨hrem0, ⟨i + 1, 1, remaining_none hrr2, ?_⟩⟩
+          unfold itNext
+          rw [hgi]
+          simp only [itAdvance, hcond, ↓reduceIte, hfx, hderef, hd, hadv, Bool.false_eq_true, hc2,
+            not_true_eq_false, decide_false, Bool.not_false]
+          congr 2
+          unfold EL.setIt
+          rw [hc]
+          simp only [List.map_cons, List.map_nil, beq_self_eq_true, ↓reduceIte]
+          rw [hi1]
+          congr 4
       | some o2 =>
         right
         have hlt2 : i + 1 < e.rs.length := (List.getElem?_eq_some_iff.mp hr2).1
         have hrr2 : e.ranges[i + 1]? = some o2.r := by rw [ranges_getElem?, hr2]; rfl
         have hmem2 : o2.r ∈ e.ranges := List.mem_of_getElem? hrr2
         have hpos := (hg o2.r hmem2).hosts_pos
+        have hc2 : ¬ ((i : Int) + 1 > (e.rs.length : Int) - 1) := by omega
+        have hnl : ¬ ((i : Int) = (e.rs.length : Int) - 1) := by omega
+        have hC : itAdvance cfg e ⟨(i : Int), (k : Int) - 1, e.hrAt (i : Int)⟩
+            = .ok (true, ⟨(i : Int) + 1, 0, e.hrAt ((i : Int) + 1)⟩) := by
+          rcases Bool.eq_false_or_eq_true cfg.fixEndPush with hfx | hfx
+          · simp only [itAdvance, hcond, ↓reduceIte, hfx, hderef, hd, hadv, hnl]
+          · simp only [itAdvance, hcond, ↓reduceIte, hfx, hderef, hd, hadv, Bool.false_eq_true, hc2,
+              not_false_eq_true, decide_true]
         refine ⟨o2.r.hosts[0], _, i + 1, 1, o2.r, ?_, ?_, rfl, hrr2, by omega, by omega, by simp⟩
         · rw [remaining_next hrr (by omega)]; exact remaining_cons hrr2 hpos
         · unfold itNext
           rw [hgi]
-          simp only [itAdvance, hcond, ↓reduceIte, hderef, hd, hadv]
-          have hc2 : ¬ ((i : Int) + 1 > (e.rs.length : Int) - 1) := by omega
           have hderef2 : e.deref (e.hrAt ((i : Int) + 1)) = .ok o2 := by
             rw [hi1]; exact deref_hrAt e hid (i + 1) o2 hr2
-          simp only [hc2, ↓reduceIte, hderef2]
+          simp only [hC, Bool.not_true, Bool.false_eq_true, ↓reduceIte, hderef2]
           have hname := HRange.nextName (hg o2.r hmem2) (hn o2.r hmem2) hpos
           simp only [Int.toNat_zero]
           rw [hname]
